@@ -12,8 +12,10 @@ pub struct Opts {
     pub allow_reconsider: bool,
     pub misuse: bool,
     pub mon: Mon,
-    /// re-derive every terminal by stateless replay and compare
+    /// re-derive terminals by stateless replay and compare
     pub validate: bool,
+    /// false: only the first and last four terminals of the configuration (graphs of four and more jobs)
+    pub validate_all: bool,
 }
 
 impl Opts {
@@ -25,6 +27,7 @@ impl Opts {
             misuse: false,
             mon,
             validate: true,
+            validate_all: true,
         }
     }
     pub fn failure_free(mon: Mon) -> Self {
@@ -35,6 +38,7 @@ impl Opts {
             misuse: false,
             mon,
             validate: true,
+            validate_all: true,
         }
     }
 }
@@ -221,7 +225,11 @@ pub fn explore_with(cfg: &Rc<Cfg>, refr: &Rc<Reference>, opts: &Opts) -> Result<
     }
     // trace validation: the forked search and a stateless replay must agree
     if opts.validate {
-        for (t, evs) in out.terminals.iter() {
+        let nt = out.terminals.len();
+        for (i, (t, evs)) in out.terminals.iter().enumerate() {
+            if !opts.validate_all && i >= 4 && i + 4 < nt {
+                continue;
+            }
             let (_s, t2, _f) = replay(cfg, refr, evs, m);
             out.replays += 1;
             if t2.as_ref() != Some(t) {
